@@ -39,15 +39,7 @@ def load_prop_module(prop):
     return importlib.import_module(f"props.{prop.lower()}")
 
 
-def known_match(prop, finding):
-    """is this violation one of the listed open findings? (never written at run time)"""
-    for k in common.load_known_findings():
-        if k.get("property") != prop or k.get("status") != "open":
-            continue
-        sig = k.get("signature", {})
-        if all(finding.get("sig", {}).get(key) == val for key, val in sig.items()):
-            return k
-    return None
+known_match = common.known_match
 
 
 def main():
